@@ -90,13 +90,13 @@ P('C11', theorems=['Tcs.asRunH_lastSnap', 'Tcs.C11_latest_snapshot', 'Tcs.C11_us
 P('C09', theorems=['Tcs.C09_frame', 'Tcs.C09_own_record_only', 'Tcs.asRunH_projection', 'Tcs.fresh_filter', 'Tcs.C09_noninterference', 'Tcs.C09_noninterference_sql', 'Tcs.C09_noninterference_mem', 'Tcs.C09_others_cannot_change'],
   owned={'av.kind', 'av.latest', 'gcv.kind', 'gcv.ids', 'gcv.payload', 'snap.accept', 'snap.vid', 'snap.payload', 'gs.kind', 'as.kind', 'state.dump'},
   oracles=[O.o_c09_frame], proj=True,
-  plan={'quick': [hist('c09', 200, 'mem:lib,sql:lib,sql:http', proj='1')], 'thorough': [hist('c09', 3000, 'mem:lib,sql:lib,sql:http', proj='1')]})
+  plan={'quick': [hist('c09', 200, 'mem:lib,sql:lib,sql:http', proj='1'), hist('c09', 60, 'sqlre:lib')], 'thorough': [hist('c09', 3000, 'mem:lib,sql:lib,sql:http', proj='1'), hist('c09', 1000, 'sqlre:lib')]})
 P('C13', theorems=['Tcs.C13_any_two_backends', 'Tcs.C13_backends_agree', 'Tcs.C13_no_storage_error', 'Tcs.C13_reopen'],
   owned={'av.kind', 'av.latest', 'av.urgency', 'gcv.kind', 'gcv.ids', 'gcv.payload', 'snap.accept', 'snap.vid', 'snap.payload', 'gs.kind', 'as.kind', 'state.dump'},
   oracles=[O.o_c13_max],
   aligned=[('mem:lib', 'sql:lib', 'C13: the same request history yields the same responses on every storage backend'),
            ('sql:lib', 'sqlre:lib', 'C13: closing and reopening the database between any two requests changes no later response')],
-  plan={'quick': [hist('c13', 260, ALL3), {'scen': 'maxrow', 'args': {}, 'n': 2, 'shards': 2}], 'thorough': [hist('c13', 6000, ALL3), hist('long', 500, ALL3), {'scen': 'maxrow', 'args': {}, 'n': 8, 'shards': 4}]})
+  plan={'quick': [hist('c13', 260, ALL3), {'scen': 'maxrow', 'args': {}, 'n': 2, 'shards': 2}, {'scen': 'urgency', 'args': {'shards': 8}, 'n': 8, 'shards': 8}], 'thorough': [hist('c13', 6000, ALL3), hist('long', 500, ALL3), {'scen': 'maxrow', 'args': {}, 'n': 8, 'shards': 4}, {'scen': 'urgency', 'args': {'shards': 16, 'dense': '1'}, 'n': 16, 'shards': 16}]})
 P('C18', theorems=['Tcs.C18_spec', 'Tcs.C18_no_id', 'Tcs.C18_noop', 'Tcs.C18_tables', 'Tcs.C18_tables_sql', 'Tcs.C18_tables_mem', 'Tcs.readsPure_sql', 'Tcs.readsPure_mem', 'Tcs.run_readOnly', 'Tcs.C10_off_chain_declined_any_window'],
   owned={'noop.dump'},
   oracles=[O.o_c18, relabel(O.o_c15, 'C18: any refused request leaves every client\'s stored state exactly as it was')],
@@ -147,7 +147,7 @@ P('C15', needs_binary=True, theorems=['Tcs.C15_refused', 'Tcs.C15_unknown_route'
         'thorough': [grammar(160, 300, lists='none,one,many'), grammar(8, 60, big='1', backends='mem,sql', lists='none'), {'scen': 'py:c17', 'args': {'mode': 'malformed'}, 'n': 40, 'shards': 8}]})
 P('C16', theorems=['Tcs.C16_unlisted', 'Tcs.C16_unlisted_403', 'Tcs.C16_listed_transparent', 'Tcs.C16_no_list', 'Tcs.C16_empty_list', 'Tcs.serve_factor'], needs_binary=True,
   owned={'http.status', 'calls.txns', 'noop.dump'},
-  oracles=[O.o_c16, relabel_if(O.o_c17, 'C16: with an allow-list configured, every request carrying any other client id is refused with 403 and listed clients are served - by the real executable, whatever its log level', ['allow-list', 'listed clients'])],
+  oracles=[O.o_c16, relabel_if(O.o_c17, 'C16: with an allow-list configured, every request carrying any other client id is refused with 403 and listed clients are served - by the real executable, whatever its log level', ['allow-list', 'listed clients', 'same history'])],
   plan={'quick': [grammar(24, 150, lists='one,many,empty,none'), {'scen': 'py:c17', 'args': {}, 'n': 18, 'shards': 6}],
         'thorough': [grammar(240, 300, lists='one,many,empty,none'), {'scen': 'py:c17', 'args': {}, 'n': 120, 'shards': 12}]})
 P('C20', theorems=['Tcs.C20_all_responses', 'Tcs.C20_value', 'Tcs.C20_wrapper_idempotent'], needs_binary=True,
@@ -256,7 +256,8 @@ def analyse(pid, spec, paths, R):
                 byh[(run.src, run.h)][run.setup] = run
         for key, d in byh.items():
             for (sa, sb, sentence) in spec['aligned']:
-                if sa in d and sb in d:
+                # the same HISTORY on two set-ups: same clients (scenarios that draw fresh ids per set-up are not aligned)
+                if sa in d and sb in d and d[sa].clients == d[sb].clients:
                     for f in O.align_compare(d[sa], d[sb], sentence):
                         fails.append((d[sa], f))
     return runs, ins, outs, fails
